@@ -195,7 +195,9 @@ static rc::Gen< std::string > gen_number()
 }
 static rc::Gen< std::string > gen_string()
 {
-   static const std::vector< std::string > pieces = { "a", "Z", " ", "/", "\\\"", "\\\\", "\\/", "\\b", "\\f", "\\n", "\\r", "\\t", "\\u0041", "\\u00e9", "\\ud83d\\ude00", "\\uD800", "\\udc00", "\\uFFFF", "\\u0000", "\x7f", "\xc3\xa9", "\xe2\x82\xac", "\xf0\x9f\x98\x80", "\xef\xbf\xbf", "\xf4\x8f\xbf\xbf", "\xed\x9f\xbf", "\xee\x80\x80", "[", "{", ":", ",", "0", "'", "\xc2\x80" };
+   static const std::vector< std::string > pieces = { "a", "Z", " ", "/", "\\\"", "\\\\", "\\/", "\\b", "\\f", "\\n", "\\r", "\\t", "\\u0041", "\\u00e9", "\\ud83d\\ude00", "\\uD800", "\\udc00", "\\uFFFF", "\\u0000", "\x7f", "\xc3\xa9", "\xe2\x82\xac", "\xf0\x9f\x98\x80", "\xef\xbf\xbf", "\xf4\x8f\xbf\xbf", "\xed\x9f\xbf", "\xee\x80\x80", "[", "{", ":", ",", "0", "'", "\xc2\x80",
+                                                      // ill-formed UTF-8 of every kind of table 3-7 violation, and the byte order mark
+                                                      "\xc1\x80", "\xc1\xbf", "\xc0\xaf", "\xe0\x9f\xbf", "\xf0\x8f\xbf\xbf", "\xed\xa0\x80", "\xf4\x90\x80\x80", "\xdf", "\xef\xbb\xbf" };
    return rc::gen::map( rc::gen::resize( 6, rc::gen::container< std::vector< std::string > >( rc::gen::elementOf( pieces ) ) ), []( const std::vector< std::string >& v ) {
       std::string s = "\"";
       for( const auto& x : v ) {
@@ -246,13 +248,13 @@ static std::string gen_value( int depth )
 
 static const std::string& mutation_bytes()
 {
-   static const std::string m( "[]{}:,\"\\0123456789-+.eEutrfalsnb/ \n\t\r\x00\x1f\x7f\x80\xbf\xc0\xc3\xe2\xed\xf0\xf4\xff", 49 );
+   static const std::string m( "[]{}:,\"\\0123456789-+.eEutrfalsnb/ \n\t\r\x00\x1f\x7f\x80\xbf\xc0\xc3\xe2\xed\xf0\xf4\xff\xc1\xc2\xe0\xef\xbb\x9f\xa0\x8f\x90", 58 );
    return m;
 }
 
 static const std::vector< std::string >& alphabet()
 {
-   static const std::vector< std::string > a = { "[", "]", "{", "}", ":", ",", "\"", "\\", "0", "1", "-", "+", ".", "e", "E", "u", "t", "r", "f", "a", "l", "s", "n", " ", "\n", "\x1f", "\x7f", "\x80", "\xc3\xa9" };
+   static const std::vector< std::string > a = { "[", "]", "{", "}", ":", ",", "\"", "\\", "0", "1", "-", "+", ".", "e", "E", "u", "t", "r", "f", "a", "l", "s", "n", " ", "\n", "\x1f", "\x7f", "\x80", "\xc3\xa9", "\xef\xbb\xbf", "\xc1\xbf" };
    return a;
 }
 
